@@ -26,7 +26,10 @@ def functions(src):
     i = 0
     while i < len(lines):
         if lines[i] == "{" and i > 0:
-            sig = lines[i - 1]
+            k = i - 1
+            while k > 0 and lines[k][:1] in (" ", "\t"):
+                k -= 1
+            sig = " ".join(lines[k:i])
             m = re.search(r"([A-Za-z_][A-Za-z0-9_]*)\s*\([^;]*$", sig)
             j = i + 1
             while j < len(lines) and lines[j] != "}":
@@ -106,7 +109,8 @@ def gen(args):
         todo += [(name, ln, op, new) for ln, op, new in ms[:cap[name] * 4]]
     print("functions not named by any unit:", ", ".join(notunder))
     print("candidate mutants:", len(todo))
-    surv = {}; percount = {}
+    surv = json.load(open(ROOT + "/survivors.json")) if (os.path.exists(ROOT + "/survivors.json") and "--append" in args) else {}
+    percount = {}
 
     def one(t):
         name, ln, op, new = t
@@ -142,22 +146,38 @@ def run(args):
         if tag in done:
             return tag, done[tag]
         us = units_for(m["func"])
+        cost = {u["name"]: u.get("cost", 10) for u in units.UNITS}
+        cheap = [n for n in us if cost[n] <= 100]; dear = [n for n in us if cost[n] > 100]
         d = ROOT + "/r_" + tag
         shutil.rmtree(d, ignore_errors=True); os.makedirs(d + "/src")
         for f in os.listdir(REPO + "/src"):
             if f.endswith((".c", ".h", ".l")) and f != "lexer.c":
                 shutil.copy(REPO + "/src/" + f, d + "/src/" + f)
-        ml = list(lines0); assert ml[m["line"] - 1] == m["old"]; ml[m["line"] - 1] = m["new"]
+        ml = list(lines0)
+        at = [k for k in range(max(0, m["line"] - 12), min(len(ml), m["line"] + 12)) if ml[k] == m["old"]]
+        if not at:
+            shutil.rmtree(d, ignore_errors=True)
+            return tag, dict(m, units=0, exit=3, failed_units=[], undecided=["line moved"])
+        at.sort(key=lambda k: abs(k - (m["line"] - 1)))
+        ml[at[0]] = m["new"]
         open(d + "/src/confuse.c", "w").write("\n".join(ml))
         shutil.copy(REPO + "/config.h", d + "/config.h")
-        p = subprocess.run([vcopy + "/check", "ALL", "--units", ",".join(us)], stdout=subprocess.PIPE, stderr=subprocess.STDOUT, text=True,
-                           env=dict(os.environ, VERIF_REPO=d, VERIF_TIMEOUT="400", VERIF_JOBS="4"))
-        failed = sorted(set(re.findall(r"FAILED OBLIGATION unit=(\S+)", p.stdout)))
-        undec = sorted(set(re.findall(r"^\[ALL\] (\S+)\s+(?:undecided|timeout)", p.stdout, re.M)))
+        failed = []; undec = []; rc = 0
+        for stage in (cheap, dear):
+            if not stage or failed:
+                continue
+            p = subprocess.run([vcopy + "/check", "ALL", "--units", ",".join(stage)], stdout=subprocess.PIPE, stderr=subprocess.STDOUT, text=True,
+                               env=dict(os.environ, VERIF_REPO=d, VERIF_TIMEOUT="400", VERIF_JOBS="4"))
+            failed += sorted(set(re.findall(r"FAILED OBLIGATION unit=(\S+)", p.stdout)))
+            undec += sorted(set(re.findall(r"^\[ALL\] (\S+)\s+(?:undecided|timeout)", p.stdout, re.M)))
+            rc = max(rc, p.returncode) if p.returncode != 1 else 1
+            if p.returncode == 1:
+                rc = 1
         shutil.rmtree(d, ignore_errors=True)
-        return tag, dict(m, units=len(us), exit=p.returncode, failed_units=failed, undecided=undec)
+        return tag, dict(m, units=len(us), exit=rc, failed_units=failed, undecided=undec)
     with cf.ThreadPoolExecutor(int(opt(args, "--jobs", "3"))) as ex:
-        for tag, r in ex.map(one, list(surv.items())):
+        items = list(surv.items()); random.Random(7).shuffle(items)
+        for tag, r in ex.map(one, items):
             done[tag] = r
             json.dump(done, open(ROOT + "/results.json", "w"), indent=1)
             print("%-10s %-26s line %-5d %-10s exit=%d %s" % (tag, r["func"], r["line"], r["op"], r["exit"], ",".join(r["failed_units"][:3])), flush=True)
